@@ -20,7 +20,7 @@ Sequence lines (second generation, one seized position):
 rec      := `closed` | `coll=..;debt=..;bonus=..;price=..;init=..;orc=..;ord=..;start=..;end=..`
 balances := `name:coll:debt,...`      misc := `net=..;ext=..;res=..;supply=..;...`
 Monitors (on REAL values): pay_le_target receive_le_collateral posted_price price_monotone price_in_range
-price_in_range_slack close_distributes start_price.
+price_in_range_slack close_distributes reserve_draw_skipped start_price start_record.
 -/
 -- DRIVER: prefix=dutch ns=Comdex.Drv.Dutch
 namespace Comdex.Drv.Dutch
@@ -56,6 +56,7 @@ structure St where
   ext0 : Int := 0
   begin_ : Option Obs := none
   drawnReal : Int := 0
+  shortReal : Int := 0
   closedSeen : Bool := false
 
 def init : St := {}
@@ -191,7 +192,13 @@ def finish (st : St) (seq : String) (outcomeModelOk : Bool) (outcome : String) (
   let baseD := st.baseD - consumedTot
   let (_, resD0) := balOf prev "reserve"
   let (_, resD1) := balOf o "reserve"
-  let drawn := st.drawnReal + (if isBid ∨ consumed.length > 0 then resD0 - resD1 else 0)
+  let bidLike := isBid ∨ consumed.length > 0
+  let drawn := st.drawnReal + (if bidLike then resD0 - resD1 else 0)
+  -- reserve record debited although the reserve account did not pay (liquidate.go:611-617), on REAL values
+  let recDelta : Int := match prev.res, o.res with | some q0, some q1 => q0 - q1 | _, _ => 0
+  let skipped : Int := if bidLike ∧ recDelta > resD0 - resD1 then recDelta - (resD0 - resD1) else 0
+  let shortReal := st.shortReal + skipped
+  let m0 := mon seq "reserve_draw_skipped" (decide (skipped = 0))
   let m1 := mon seq "pay_le_target" (decide (realPaid ≤ st.e.target))
   let m2 := mon seq "receive_le_collateral" (decide (realRecv ≤ st.e.coll0))
   -- close: custody and distribution on real balances
@@ -202,18 +209,18 @@ def finish (st : St) (seq : String) (outcomeModelOk : Bool) (outcome : String) (
       | none => []
       | some b0 =>
         let (aC, aD) := balOf o "auction"
-        let custody := decide (aC = st.baseC) && decide (aD = baseD + (o.ext - st.ext0))
+        let custody := decide (aC = st.baseC) && decide (aD + shortReal = baseD + (o.ext - st.ext0))
         let dlt (n : String) : Int := (balOf o n).2 - (balOf b0 n).2
         let burned := b0.supply - o.supply
         let out := burned + dlt "collector" + dlt "keeper" + dlt "initiator" + dlt "pool" + (o.ext - st.ext0)
-        let proceeds := decide (realPaid + drawn = out) && decide (out = st.e.target)
+        let proceeds := decide (realPaid + drawn + shortReal = out) && decide (out = st.e.target)
         let ownerOk := decide ((balOf o "owner").1 - (balOf b0 "owner").1 = st.e.coll0 - realRecv)
         mon seq "close_distributes" (custody && proceeds && ownerOk)
     else []
-  let st' := { st with prev := some o, realPaid := realPaid, realRecv := realRecv, baseD := baseD, drawnReal := drawn,
+  let st' := { st with prev := some o, realPaid := realPaid, realRecv := realRecv, baseD := baseD, drawnReal := drawn, shortReal := shortReal,
                        closedSeen := st.closedSeen || closing }
   let st' := if d2.isEmpty then st' else adopt st' o
-  (st', d1 ++ d2 ++ m1 ++ m2 ++ m3 ++ extraMons)
+  (st', d1 ++ d2 ++ m0 ++ m1 ++ m2 ++ m3 ++ extraMons)
 
 def pureLine (seq : String) (m : Except Unit Int) (o v : String) (okTag : String := "ok") : List String :=
   let ms := match m with | .ok x => s!"{okTag}\t{x}" | .error _ => "fail\t-"
